@@ -29,6 +29,9 @@ const (
 	RunToBlock
 	RoundRobin
 	PCT
+	// Starve: about one goroutine in six (chosen by a hash of its logical id and the schedule seed, never the root) is slow: it only
+	// runs when no other goroutine can. Among the others, and among the slow ones when only they are left, the choice is uniform.
+	Starve
 )
 
 type G struct {
@@ -43,6 +46,7 @@ type G struct {
 	spawns int
 	prio   uint32
 	recvs  int
+	slow   uint8 // Starve: 0 not decided yet, 1 normal, 2 slow
 	// parked waiting for a lock that was held at the last probe: runnable again only after somebody released a lock
 	lockwait  bool
 	waitEpoch int
@@ -490,6 +494,25 @@ func (s *Sched) loop(done chan struct{}) (deadlock, budget bool, blocked []strin
 					pick = cand[i]
 				}
 			}
+		case Starve:
+			k := 0
+			for i := 0; i < n; i++ {
+				g := cand[i]
+				if g.slow == 0 {
+					g.slow = 1
+					if s.ng > 0 && g != s.gs[0] && fnv(s.cfg.SchedSeed^0x51ED27, g.ID)%6 == 0 {
+						g.slow = 2
+					}
+				}
+				if g.slow == 1 {
+					cand[k], cand[i] = cand[i], cand[k]
+					k++
+				}
+			}
+			if k > 0 {
+				n = k
+			}
+			pick = cand[s.nextChoice(n)]
 		default:
 			pick = cand[s.nextChoice(n)]
 		}
